@@ -1,6 +1,7 @@
 import PugModel.Pug.Syntax
 import PugModel.Tpl.Syntax
 import PugModel.Tpl.Exec
+import PugModel.Tpl.Quote
 /-
 Model of the transpiler: pugjs/transform_*.go (nodes) and pugjs/transform_js_.go renderExpression (JavaScript
 snippets) — pug AST → flat fragment list (text and actions with trim markers), then the nesting that parse.Parse builds.
@@ -31,6 +32,7 @@ def opHelper (tok : String) : CM String :=
 structure CEnv where
   funcs : List String          -- names in renderState.funcs (the engine's FuncProvider)
   parserFuncs : List String    -- every name the template parser knows (funcs ∪ funcmap ∪ builtins)
+  debug : Bool := false        -- renderState.debug (Engine.Debug): pretty-source mode
 
 def nullCall : TExpr := .fcall "null" []
 
@@ -124,17 +126,14 @@ def wrapKind (e : JS.Expr) : WrapKind :=
   | .un .. => .unaryAction
   | e => .action (matrixRow (exprKind e)).2
 
-/-- `quoteDelims` (pug_parser.go): a `{` that is followed by another `{`, or that ends the text, is emitted as the
-    action `{{"{"}}`; everything else is spliced into the template source as it is. Result: the pieces of source. -/
-def quoteChars : List Char → List Char → List Frag
-  | [], cur => if cur.isEmpty then [] else [.text (String.ofList cur.reverse)]
-  | '{' :: rest, cur =>
-    match rest with
-    | [] | '{' :: _ =>
-      (if cur.isEmpty then [] else [Frag.text (String.ofList cur.reverse)])
-        ++ [.act false false (.print (.lit (.str "{")) false)] ++ quoteChars rest []
-    | _ => quoteChars rest ('{' :: cur)
-  | c :: rest, cur => quoteChars rest (c :: cur)
+/-- the action `{{"{"}}` -/
+def lbraceAct : Frag := .act false false (.print (.lit (.str "{")) false)
+
+/-- `quoteDelims` (pug_parser.go) as fragments; the character-level function and its lexing theorem are in Tpl/Quote.lean -/
+def quoteChars (s : List Char) (cur : List Char) : List Frag :=
+  (quoteL s cur).map fun p => match p with
+    | some cs => Frag.text (String.ofList cs)
+    | none => lbraceAct
 
 def textFrag (s : String) : CM (List Frag) := pure (quoteChars s.toList [])
 
@@ -199,6 +198,18 @@ def isWs (c : Char) : Bool := c == ' ' || c == '\t' || c == '\r' || c == '\n'
 def trimLeftWs (s : String) : String := String.ofList (s.toList.dropWhile isWs)
 def trimRightWs (s : String) : String := String.ofList (s.toList.reverse.dropWhile isWs).reverse
 
+/-- the separator the debug mode writes after block-level nodes: `     {{- "" -}}\n` -/
+def debugSep : List Frag := [.text "     ", .act true true (.print (.lit (.str "")) false), .text "\n"]
+
+/-- Node.Inline() (pug_blocks.go) -/
+partial def nodeInline : Node → Bool
+  | .tag _ isInline .. => isInline
+  | .codeBuf _ _ isInline => isInline
+  | .codeRaw _ isInline => isInline
+  | .text _ | .doctype _ | .cond .. | .mixinBlock => true
+  | .each _ _ _ kids | .while _ kids | .mixinDef _ _ kids | .mixinCall _ _ _ kids => kids.all nodeInline
+  | .case _ whens => whens.all fun w => w.2.all nodeInline
+
 mutual
 partial def compileNode (env : CEnv) (n : Node) : CM (List Frag) := do
   match n with
@@ -206,13 +217,20 @@ partial def compileNode (env : CEnv) (n : Node) : CM (List Frag) := do
   | .doctype v => pure [.text ("<!DOCTYPE " ++ v ++ ">\n")]
   | .codeBuf e esc _ => compileBuffered env e esc
   | .codeRaw stmts _ => do pure (← stmts.mapM (compileStmt env)).flatten
-  | .tag name _ attrs ablocks kids => do
+  | .tag name isInline attrs ablocks kids => do
     let sub ← compileNodes env kids
     let attrFrags ← compileAttrs env attrs ablocks
     let open_ := [Frag.text ("<" ++ name)] ++ attrFrags ++ [Frag.text ">"]
-    if voidTags.contains name then pure open_
-    else if name == "script" then .error (.domain "script tag special case")
-    else pure (open_ ++ sub ++ [.text ("</" ++ name ++ ">")])
+    let close := Frag.text ("</" ++ name ++ ">")
+    let subHasNewline := sub.any fun f => match f with
+      | .text t => t.toList.contains '\n'
+      | _ => false
+    let body ←
+      if voidTags.contains name then pure open_
+      else if name == "script" && subHasNewline then pure (open_ ++ [.text "\n"] ++ sub ++ [.text "\n", close])
+      else if !(kids.all nodeInline) && env.debug then pure (open_ ++ debugSep ++ sub ++ debugSep ++ [close])
+      else pure (open_ ++ sub ++ [close])
+    pure (if !isInline && env.debug then body ++ debugSep else body)
   | .cond test thn els => do
     let some t ← compileExpr env test | .error (.domain "null test")
     let thnF ← compileNodes env thn
